@@ -357,7 +357,8 @@ def pv_case(draw):
                           st.tuples(st.floats(-12, -3), st.booleans()).map(lambda t: (10 ** t[0]) * (-1 if t[1] else 1))))
     if rate != 0 and abs(rate) < 1e-12:
         rate = math.copysign(1e-12, rate)       # explored range of near-zero rates: +-1e-12 .. +-1e-3
-    n = draw(st.one_of(st.integers(0, 600), st.floats(0, 600, allow_nan=False), st.integers(0, 40)))
+    n = draw(st.one_of(st.integers(0, 600), st.floats(0, 600, allow_nan=False), st.integers(0, 40),
+                       st.integers(-600, -1), st.floats(-600, 0, allow_nan=False), st.integers(-40, -1)))     # the annuity equation is stated for every period count
     pmt = draw(st.one_of(st.integers(-10 ** 6, 10 ** 6), st.floats(-1e9, 1e9, allow_nan=False)))
     fv = draw(st.one_of(st.none(), st.integers(-10 ** 6, 10 ** 6), st.floats(-1e9, 1e9, allow_nan=False)))
     typ = draw(st.sampled_from([None, 0, 1]))
@@ -495,9 +496,10 @@ LAWS = [
         key=lambda c: IDENTS[c['i']][0], classes=lambda c: (IDENTS[c['i']][0],), required=tuple(i[0] for i in IDENTS),
         rule='29 defining identities evaluated as single formulas (sin^2+cos^2, TAN=SIN/COS, COT=1/TAN, EXP/LN, each inverse pair on its principal range, DEGREES/RADIANS, SQRT, POWER) at 1e-9 (1e-7 where the inverse is ill-conditioned near the ends)'),
     Law('pv', check_pv, strategy=pv_case(), quick=3000, thorough=100000,
-        classes=lambda c: (('rate0' if c['rate'] == 0 else ('tiny-rate' if abs(c['rate']) < 1e-3 else 'rate')), 'type:%r' % c['type']),
-        required=('rate0', 'tiny-rate', 'rate', 'type:1', 'type:0', 'type:None'),
-        rule='(rate > -1 incl. 0 and +-1e-12..1e-3, periods 0..600 integer/real, payment/future up to 1e9 of any sign, type 0/1/omitted): residual of the annuity equation <= 1e-9 of the sum of term magnitudes'),
+        classes=lambda c: (('rate0' if c['rate'] == 0 else ('tiny-rate' if abs(c['rate']) < 1e-3 else 'rate')), 'type:%r' % c['type'],
+                           'periods<0' if c['n'] < 0 else 'periods>=0'),
+        required=('rate0', 'tiny-rate', 'rate', 'type:1', 'type:0', 'type:None', 'periods<0', 'periods>=0'),
+        rule='(rate > -1 incl. 0 and +-1e-12..1e-3, periods -600..600 integer/real, payment/future up to 1e9 of any sign, type 0/1/omitted): residual of the annuity equation <= 1e-9 of the sum of term magnitudes'),
     Law('rand', check_rand, strategy=st.tuples(st.integers(-10 ** 6, 10 ** 6), st.integers(-10 ** 6, 10 ** 6)).map(list), quick=1000, thorough=100000,
         rule='RAND() in [0,1), also when the random source draws its end points; RANDBETWEEN(a,b) an integer in [a,b] (range predicate only), the whole-number bounds given as integers and as floats, quotients, text or host floats'),
 ]
